@@ -182,6 +182,12 @@ func c09Check(c c09Case) error {
 		if err := r.ReadHeader(); err != nil {
 			return fmt.Errorf("second ReadHeader: %v", err)
 		}
+		// the re-read header must describe the edited bytes (version included), not the first parse
+		edited := append([]byte(nil), c.Header...)
+		edited[pos] = nv
+		if err := c09CheckFields(edited, &r.Header); err != nil {
+			return fmt.Errorf("after editing byte $%04X to %02x and re-reading on the same ROM object: %v", 0xFFB0+pos, nv, err)
+		}
 		if err := r.WriteHeader(); err != nil {
 			return fmt.Errorf("second WriteHeader: %v", err)
 		}
@@ -193,6 +199,33 @@ func c09Check(c c09Case) error {
 		r.Contents[0x7FB0+pos] = c.Header[pos]
 		if err := r.ReadHeader(); err != nil {
 			return fmt.Errorf("third ReadHeader: %v", err)
+		}
+	}
+	// (1c) the header may sit elsewhere in the image (HiROM $FFB0, images with a 512-byte copier header): ROM.HeaderOffset
+	for _, off := range []uint32{0xFFB0, 0x81B0} {
+		if int(off)+0x50 > len(orig) {
+			continue
+		}
+		img2 := append([]byte(nil), orig...)
+		copy(img2[off:off+0x50], c.Header)
+		want2 := append([]byte(nil), img2...)
+		r2, err := snes.NewROM("offset", img2)
+		if err != nil {
+			return fmt.Errorf("NewROM: %v", err)
+		}
+		r2.HeaderOffset = off
+		if err := r2.ReadHeader(); err != nil {
+			return fmt.Errorf("ReadHeader at offset $%X: %v", off, err)
+		}
+		if err := c09CheckFields(c.Header, &r2.Header); err != nil {
+			return fmt.Errorf("header at file offset $%X: %v", off, err)
+		}
+		if err := rig.Safe(func() error { return r2.WriteHeader() }); err != nil {
+			return fmt.Errorf("WriteHeader at offset $%X: %v", off, err)
+		}
+		if !bytes.Equal(r2.Contents, want2) {
+			i := firstDiff(r2.Contents, want2)
+			return fmt.Errorf("header at file offset $%X (version %d): ReadHeader+WriteHeader changed image byte at file offset $%X: %02x -> %02x", off, c09Version(c.Header), i, want2[i], r2.Contents[i])
 		}
 	}
 	// (2) serialise -> 80 bytes -> parse back -> identical header
@@ -275,7 +308,7 @@ func c09Gen(t *rapid.T) c09Case {
 		}
 	}
 	c := c09Case{Header: hdr, Banks: 1}
-	if rapid.IntRange(0, 3).Draw(t, "big") == 0 {
+	if rapid.IntRange(0, 1).Draw(t, "big") == 0 {
 		c.Banks = rapid.IntRange(1, 8).Draw(t, "banks")
 	}
 	if rapid.Bool().Draw(t, "has-tail") {
@@ -283,6 +316,19 @@ func c09Gen(t *rapid.T) c09Case {
 	}
 	c.FlipPos = rapid.IntRange(0, 79).Draw(t, "flip-pos")
 	c.FlipVal = rapid.Byte().Draw(t, "flip-val")
+	if rapid.IntRange(0, 4).Draw(t, "flip-marker") == 0 { // edit a version marker so that the version changes on re-read
+		if rapid.Bool().Draw(t, "flip-which") {
+			c.FlipPos, c.FlipVal = 0x2A, 0x33
+			if hdr[0x2A] == 0x33 {
+				c.FlipVal = 0x00
+			}
+		} else {
+			c.FlipPos, c.FlipVal = 0x24, 0x00
+			if hdr[0x24] == 0 {
+				c.FlipVal = 0x41
+			}
+		}
+	}
 	return c
 }
 
